@@ -29,7 +29,70 @@ type cnode struct {
 	fnAr  int           // 1 | 2
 	rec1  *[]string     // recorded "(cell, bool)" entries
 	desc  string
+	argCol string       // argument column of a two argument predicate
 }
+
+// complete evaluates the (pure) custom predicates of the clause on every physical cell of their column(s), so that
+// the specification finds the answer for the right cell even when the implementation consulted a wrong one.
+func (n *cnode) complete(d qframe.VerifFrame) {
+	for _, s := range n.subs {
+		s.complete(d)
+	}
+	if n.kind != "leaf" || n.fnT == "" {
+		return
+	}
+	kind := map[string]string{"TInt": "int", "TFloat": "float", "TBool": "bool", "TString": "string"}[n.fnT]
+	var c1, c2 *qframe.VerifColumn
+	for i := range d.Columns {
+		if d.Columns[i].Name == n.col {
+			c1 = &d.Columns[i]
+		}
+		if d.Columns[i].Name == n.argCol {
+			c2 = &d.Columns[i]
+		}
+	}
+	if c1 == nil {
+		return
+	}
+	x := physCells(*c1, kind)
+	if n.fnAr == 1 {
+		for _, v := range x {
+			switch f := n.cmpGo.(type) {
+			case func(int) bool:
+				f(v.(int))
+			case func(float64) bool:
+				f(v.(float64))
+			case func(bool) bool:
+				f(v.(bool))
+			case func(*string) bool:
+				f(v.(*string))
+			}
+		}
+		return
+	}
+	if c2 == nil {
+		return
+	}
+	y := physCells(*c2, kind)
+	if x == nil || y == nil || len(x) != len(y) {
+		return
+	}
+	for i := range x {
+		switch f := n.cmpGo.(type) {
+		case func(int, int) bool:
+			f(x[i].(int), y[i].(int))
+		case func(float64, float64) bool:
+			f(x[i].(float64), y[i].(float64))
+		case func(bool, bool) bool:
+			f(x[i].(bool), y[i].(bool))
+		case func(*string, *string) bool:
+			f(x[i].(*string), y[i].(*string))
+		}
+	}
+}
+
+var _ = 0
+
 
 func (n *cnode) goClause() qframe.FilterClause {
 	switch n.kind {
@@ -247,6 +310,7 @@ func genLeaf(r *hlib.Rng, cols []genCol, malformed bool) *cnode {
 			}
 			n.argGo = types.ColumnName(o.name)
 			n.argC = "(AColName " + hlib.Str(o.name) + ")"
+			n.argCol = o.name
 			n.desc += " col " + o.name
 		} else {
 			n.argC = "ANil"
